@@ -18,6 +18,8 @@ def sample_value(rng, vt, lb, ub):
     if vt == 'SPIN':
         return rng.choice([-1, 1])
     if vt == 'INTEGER':
+        if rng.random() < 0.15:
+            return rng.choice([128, 200, 255, 40000])      # beyond int8 / int16: exercises unsigned sample dtypes
         return rng.randint(int(lb), int(ub))
     return float(rng.choice([Fraction(lb), Fraction(ub), Fraction(lb) + Fraction(1, 2), Fraction(lb) + Fraction(1, 4)]))
 
@@ -110,6 +112,12 @@ def encode_samples(form, labels, rows, perms, drop=None):
         order = [i for i in perms[0] if i in use]
         arr = np.array([[r[i] for i in order] for r in rows], dtype=float if any(isinstance(x, float) for r in rows for x in r) else np.int64)
         arr = arr.reshape(len(rows), len(order))
+        if arr.dtype == np.int64 and arr.size and arr.min() >= 0:
+            # unsigned and narrow dtypes must be evaluated at the values they hold
+            for dt in (np.uint8, np.uint16, np.uint32, np.int8, np.int16):
+                if arr.max() <= np.iinfo(dt).max and (hash((arr.tobytes(), dt.__name__)) % 3 == 0):
+                    arr = arr.astype(dt)
+                    break
         return (arr, [labels[i] for i in order]), len(rows)
     if form == 'dicts':
         return [{labels[i]: r[i] for i in p if i in use} for r, p in zip(rows, perms)], len(rows)
